@@ -7,6 +7,7 @@ Inductive Case :=
 | CSer (c : RunC01.Case)
 | CDeInt (col : IntKind) (req : Req) (z : Z) (impl : Outcome DVal)
 | CDeBool (req : Req) (v : bool) (impl : Outcome DVal)
+| CDeFloat (col32 req32 : bool) (bits : Z) (impl : Outcome Z)   (* a float column read as f32 / f64: the bits handed out *)
 | CMalformed (column text : bytes) (accepted : bool).   (* text that is not a value of the column's type *)
 
 Definition out_eqb (m i : Outcome DVal) : bool :=
@@ -19,6 +20,7 @@ Definition corr (c : Case) : bool :=
               | _ => RunC01.corr s end
   | CDeInt col req z impl => out_eqb (conv_de_int req z) impl
   | CDeBool req v impl => out_eqb (conv_de_bool req v) impl
+  | CDeFloat col32 req32 bits impl => match impl with Ok z => Z.eqb z (conv_de_float col32 req32 bits) | _ => false end
   | CMalformed _ _ _ => true
   end.
 (* the property: Ok => the value read is exactly the stored one; nothing panics *)
@@ -34,6 +36,8 @@ Definition oracle (c : Case) : bool :=
     end
   | CDeBool req v impl =>
     match impl with Ok d => Z.eqb (denote d) (if v then 1 else 0)%Z | Err => true | Panic _ => false end
+  (* the value read is the stored one, or its documented narrowing / exact widening *)
+  | CDeFloat col32 req32 bits impl => match impl with Ok z => Z.eqb z (conv_de_float col32 req32 bits) | Err => true | Panic _ => false end
   | CMalformed _ _ accepted => negb accepted
   end.
 Definition info (cs : list Case) : list N :=
